@@ -2,7 +2,7 @@
 from vpa import evaluators as E
 from vpa.core import show, Site, simplify, subterms
 from vpa.pattern import match, find
-from vpa.poly import rat_equal
+from vpa.poly import rat_equal, poly
 
 EXPLANATION = """Structural obligations behind C11: (EXPR) the cached bounding box of every Circle2 / Arc2 is computed from the very centre, radius
 and angles that are stored (all 6 construction sites), the box fields are private; arc_aabb2 takes the two end angles plus the
@@ -13,12 +13,92 @@ tangent points at the centre angle theta -+ acos(r/d) (right triangle centre-tan
 outer tangents: None when concentric, +-r offsets for equal radii; Segment2::try_new rejects coincident end points;
 (ALGEBRA) the three-point circle's centre is equidistant from all three points as a rational-function identity, and its radius is
 the distance to one of them; the arc API is a delegation chain: length = r*|angle|, point_at_length(l) =
-point_at_fraction(l/length()), point_at_fraction(f) = point_at_angle(angle*f), point_at_angle(a) = circle.point_at_angle(angle0+a)."""
-NOT_DECIDED = "that intersection points lie on both objects (vector identities with unit vectors), the sweep sign of three_points, intersection_line_circle values; center/ball/circle/angle fields are public, so a caller can desynchronise the cached box by assignment (the property is read as being about the constructions)"
+point_at_fraction(l/length()), point_at_fraction(f) = point_at_angle(angle*f), point_at_angle(a) = circle.point_at_angle(angle0+a);
+(ALGEBRA) Arc2::three_points sweeps counter-clockwise exactly when the branch quantity is a positive multiple of (p1-p0)x(p2-p0) as a
+polynomial in the six coordinates; (GUARD) intersection_line_circle returns the foot of the centre under a two-sided |d-r| < tol that
+takes precedence, nothing only when also d > r, else foot -+ sqrt(r^2-d^2)/|dir|."""
+NOT_DECIDED = "that intersection points lie on both objects (vector identities with unit vectors), that directed_angle measures the stated direction (C18), center/ball/circle/angle fields are public, so a caller can desynchronise the cached box by assignment (the property is read as being about the constructions)"
 ASSUMPTIONS = ["real arithmetic for the algebraic identity; f64::powi(x,2) = x*x"]
 
 C = 'geom2::circle2::Circle2'
 A = 'geom2::circle2::Arc2'
+
+
+def line_circle_rules(cx):
+    b = cx.fn('geom2::circle2::intersection_line_circle')
+    if not b:
+        return
+    R = '(field radius (field ball (param circle)))'
+    D = '(call *points::dist (field center (param circle)) (call *Line2::projected_point (param line) (field center (param circle))))'
+    TC = '(call *Line2::projected_parameter (param line) (field center (param circle)))'
+    TAN = f'(lt (call f64::abs (or (sub {D} {R}) (sub {R} {D}))) $tol)'
+    OUT = f'(or (lt {R} {D}) (lt 0.0 (sub {D} {R})))'
+    TH = f'(div (call f64::sqrt (sub (or (call f64::powi {R} 2) (mul {R} {R})) (or (call f64::powi {D} 2) (mul {D} {D})))) (call Matrix::norm (call *Line2::dir (param line))))'
+    kinds = {}
+    for s, d in cx.rets(b):
+        if match('(call Vec::new)', d) is not None or match('(veclit (agg array))', d) is not None and len(d[1]) == 2:
+            k = 'none'
+            ok, off = cx.all_paths(b, s.bb, lambda has: has(TAN, False) and has(OUT, True))
+        elif match(f'(veclit (agg array (0 {TC})))', d) is not None and len(d[1]) == 3:
+            k = 'one'
+            ok, off = cx.all_paths(b, s.bb, lambda has: has(TAN, True))
+        elif match(f'(veclit (agg array (0 (sub {TC} {TH})) (1 (add {TC} {TH}))))', d) is not None:
+            k = 'two'
+            ok, off = cx.all_paths(b, s.bb, lambda has: has(TAN, False) and has(OUT, False))
+        else:
+            k, ok, off = 'other:' + show(d)[:200], False, None
+        kinds[k] = kinds.get(k, True) and ok
+    tol = None
+    for bi in b.live:
+        for a, p in cx.guards(b, bi):
+            e = match(TAN, a)
+            if e: tol = e['tol']
+    cx.ob('GUARD', 'intersection_line_circle:classification', kinds == {'none': True, 'one': True, 'two': True} and tol is not None and tol[0] == 'const' and 0 < tol[1] <= 1e-6,
+          'with d the distance of the centre from the line: one parameter (the foot of the centre) exactly under |d - r| < tol, none exactly under NOT tangent and d > r, '
+          'else the foot -+ sqrt(r^2 - d^2) / |dir|; the tangency test is two-sided and takes precedence, so a tangent line whose d rounds just above r still gives its point', where=b.file, found=str(kinds))
+
+
+def proportional(p, q):
+    """p = k*q with k > 0 (polynomials as dicts)"""
+    if not p or set(p) != set(q):
+        return False
+    ks = [p[m] / q[m] for m in p]
+    return ks[0] > 0 and all(abs(k - ks[0]) <= 1e-9 * abs(ks[0]) for k in ks)
+
+def three_points_sweep(cx):
+    b = cx.fn(f'geom2::circle2::Arc2::three_points')
+    if not b:
+        return
+    def P(i, c):
+        return ('field', c, ('param', i + 1, f'p{i}'))
+    # twice the signed area of (p0, p1, p2): positive when the three points run counter-clockwise
+    cross = ('sub', ('mul', ('sub', P(1, 'x'), P(0, 'x')), ('sub', P(2, 'y'), P(0, 'y'))), ('mul', ('sub', P(1, 'y'), P(0, 'y')), ('sub', P(2, 'x'), P(0, 'x'))))
+    pc = poly(cross)
+    CEN = '(field center (unwrap (call *Circle2::from_3_points (param p0) (param p1) (param p2))))'
+    V0, V2 = f'(call OPoint::sub (param p0) {CEN})', f'(call OPoint::sub (param p2) {CEN})'
+    lit = b.aggregates('geom2::circle2::Arc2')
+    seen = {}
+    if len(lit) == 1:
+        rv = lit[0].data['rv']
+        ops = dict(zip(rv.get('fields', []), rv['ops']))
+        for dbb, dv, g in cx.alts(b, ops['angle'], lit[0].bb, lit[0].idx) if 'angle' in ops else []:
+            if match(f'(call *directed_angle {V0} {V2} (agg *AngleDir::Ccw))', dv) is not None:
+                want = 1.0
+            elif match(f'(neg (call *directed_angle {V0} {V2} (agg *AngleDir::Cw)))', dv) is not None:
+                want = -1.0
+            else:
+                seen['other'] = show(dv)[:200]
+                continue
+            good = False
+            for a, pol in g:
+                if a[0] in ('lt', 'le') and len(a) == 3:
+                    e = ('sub', a[2], a[1]) if pol else ('sub', a[1], a[2])        # the quantity that is positive (non-negative) on this branch
+                    pe = poly(e)
+                    good = good or proportional(pe, {k: want * v for k, v in pc.items()})
+            seen['ccw' if want > 0 else 'cw'] = good
+    cx.ob('ALGEBRA', 'Arc2::three_points:sweep', seen == {'ccw': True, 'cw': True},
+          'the sweep from p0 to p2 is taken counter-clockwise (positive) exactly when (p0, p1, p2) run counter-clockwise - the branch quantity is, as a polynomial in the six '
+          'coordinates, a positive multiple of (p1-p0)x(p2-p0) - and clockwise (negated) otherwise, so the arc passes through the middle point', where=b.file, found=str(seen))
 
 
 def run(cx):
@@ -180,6 +260,8 @@ def run(cx):
             e = match('(agg * (circle $c) (angle0 (call *Circle2::angle_of_point $c (param p0))))', d)
             ok = e is not None and match('(unwrap (call *Circle2::from_3_points (param p0) (param p1) (param p2)))', e['c']) is not None
         cx.ob('EXPR', 'Arc2::three_points:start', ok, 'the arc lies on the circle through the three points and starts at the angle of the first point', where=b.file)
+    three_points_sweep(cx)
+    line_circle_rules(cx)
 
     # ---------------------------------------------------------------- curve / circle intersections: every edge is tested
     b = cx.fn('geom2::curve2::Curve2::intersection', where='Circle2')
